@@ -411,6 +411,71 @@ theorem run_inv (l : Ledger) (ops : List Op) (hl : LInv l) : LInv (run l ops) :=
   | nil => exact hl
   | cons o os ih => exact ih (step l o) (step_inv l o hl)
 
+/-- every gauge a user managed to create has at least one epoch and a deposit of at least one unit per epoch -/
+def AccInv (l : Ledger) : Prop := ∀ g ∈ l.gauges, 1 ≤ g.total ∧ (g.total : Int) ≤ g.deposit
+
+theorem stepB_acc (l l' : Ledger) (o : BOp) (h : stepB l o = .ok l') (hl : AccInv l) : AccInv l' := by
+  cases o with
+  | trigger i now d =>
+    simp only [stepB] at h
+    split at h
+    · injection h with h; subst h; exact hl
+    · rename_i g hgi
+      split at h
+      · cases h
+      · rename_i g' sends ht
+        injection h with h; subst h
+        intro x hx
+        rcases mem_setAt _ _ _ _ hx with hx | rfl
+        · exact hl x hx
+        · obtain ⟨h1, h2⟩ := trigger_deposit g x now d sends ht
+          have := hl g (List.mem_of_getElem? hgi)
+          rw [h1, h2]; exact this
+  | extPay j pays =>
+    simp only [stepB] at h
+    split at h
+    · injection h with h; subst h; exact hl
+    · split at h <;> (injection h with h; subst h; exact hl)
+  | extDeactivate j =>
+    simp only [stepB] at h
+    split at h <;> (injection h with h; subst h; exact hl)
+
+theorem runB_acc (l l' : Ledger) (os : List BOp) (h : runB l os = .ok l') (hl : AccInv l) : AccInv l' := by
+  induction os generalizing l with
+  | nil => simp only [runB] at h; injection h with h; subst h; exact hl
+  | cons o os ih =>
+    simp only [runB] at h
+    split at h
+    · cases h
+    · rename_i l1 h1
+      exact ih l1 h (stepB_acc l l1 o h1 hl)
+
+theorem step_acc (l : Ledger) (o : Op) (hl : AccInv l) : AccInv (step l o) := by
+  cases o with
+  | createGauge deposit total start now dur minDur aux funds =>
+    simp only [step]
+    split
+    · rename_i hc
+      simp only [createGuard, Bool.and_eq_true, decide_eq_true_eq] at hc
+      intro g hgm
+      simp only [List.mem_append, List.mem_singleton] at hgm
+      rcases hgm with hgm | rfl
+      · exact hl g hgm
+      · simp only [newGauge]; omega
+    · exact hl
+  | createExt amount funds => simp only [step]; split <;> exact hl
+  | fund amount => simp only [step]; split <;> exact hl
+  | block ops =>
+    simp only [step]
+    split
+    · rename_i l' h; exact runB_acc l l' ops h hl
+    · exact hl
+
+theorem run_acc (l : Ledger) (ops : List Op) (hl : AccInv l) : AccInv (run l ops) := by
+  induction ops generalizing l with
+  | nil => exact hl
+  | cons o os ih => exact ih (step l o) (step_acc l o hl)
+
 theorem empty_inv : LInv Ledger.empty := ⟨by simp [Ledger.empty], by simp [Ledger.empty, remGauges, remExts]⟩
 
 theorem remActiveGauges_le (gs : List Gauge) (h : ∀ g ∈ gs, GInv g) : remActiveGauges gs ≤ remGauges gs := by
